@@ -1,4 +1,5 @@
 import Scion.Proofs.BfdAsync
+import Scion.Gen.Bfd
 /-! # C16 — BFD sessions follow RFC 5880 and always recover
 
 Model: `Scion.Model.Bfd` (`transition` = fsm.go, `recvStep` = what `Session.Run` does with an
@@ -342,9 +343,28 @@ theorem no_early_down (s : Timed) (now : Nat) (hd : now < s.deadline) : s.tick n
   rw [if_neg (by omega)]
 
 /-- the detection time armed by a packet is `DetectMult × max(RequiredMinRx, remote
-DesiredMinTx)` after its arrival. -/
+DesiredMinTx)` after its arrival. Times are unbounded naturals (µs): the product is the
+mathematical product, it does NOT wrap at 2^32 µs. The code agrees because it forms the product
+in `time.Duration` (int64 ns; 255 × (2^32−1) µs ≈ 1.1·10^15 ns < 2^63) — see
+`gen_detection_product_in_duration` and the large-product scripts of engine `bfd`. -/
 theorem detection_time (s : Timed) (now : Nat) (r : St) (mult reqRx remTx : Nat) :
     (s.recv now r mult reqRx remTx).deadline = now + mult * max reqRx remTx := rfl
+
+/-- in particular a product of 2^32 µs or more arms a timer of at least 2^32 µs (≈ 71.6 min):
+a session that is Up stays Up for that long after the packet -/
+theorem detection_time_beyond_32_bits (s : Timed) (now t : Nat) (r : St) (mult reqRx remTx : Nat)
+    (hbig : 2 ^ 32 ≤ mult * max reqRx remTx) (ht : t < now + 2 ^ 32) :
+    (s.recv now r mult reqRx remTx).tick t = s.recv now r mult reqRx remTx := by
+  apply no_early_down
+  rw [detection_time]
+  omega
+
+/-- T3: `Session.Run` computes `detectionTime` once, as
+`time.Duration(msg.DetectMultiplier) * max(s.RequiredMinRxInterval, bfdIntervalToDuration(…))`,
+i.e. the multiplication is performed in `time.Duration`, not in the 32-bit `BFDTimeInterval`. -/
+theorem gen_detection_product_in_duration :
+    Scion.Gen.Bfd.detectionProductInDuration = true ∧ Scion.Gen.Bfd.detectionTimeAssignments = 1 := by
+  decide
 
 /-! ### Transmission interval (RFC 5880 §6.8.7) -/
 
@@ -427,6 +447,7 @@ example : Fair (fun n => if n % 2 = 0 then .ab else .ba) := by
 example : pairAt (fun n => if n % 2 = 0 then .ab else .ba) (.up, .down) 6 = (.up, .up) := by decide
 example : ACleanReachable ⟨.init, .down, [.down, .init], []⟩ :=
   ⟨[.sendA, .sendB, .recvA, .sendA], by decide⟩
+example : (({ st := .up, deadline := 0 } : Timed).recv 1000 .up 255 1000 17000000).deadline = 1000 + 4335000000 := rfl
 example : ({ st := .up, deadline := 300 } : Timed).tick 300 = { st := .down, deadline := 300 + defaultDetect } := rfl
 
 end Scion.C16
